@@ -239,7 +239,23 @@ func dictionaryProtocol(r *RunCtx) {
 	w := newWorld(r, c.Choose(4, "cfg.syn") == 0, false)
 	defer w.CloseAll()
 	w.populate(1)
+	// The iterations run on COLD twin instances (second Open of the file, or a
+	// rebuild of the batch): the lazily filled per-field dictionary cache of the
+	// instance the reference answers were taken from is already complete, in
+	// sorted field order; on a cold instance the order of first accesses is the
+	// seeded history.
+	for _, h := range w.Segs {
+		if h.Seg == nil {
+			continue
+		}
+		cold := w.twinOf(h)
+		h.Seg.Close()
+		h.Seg = cold
+	}
 	n := 4 + c.Choose(12, "dict.niter")
+	if w.Cfg.Many {
+		n += 40
+	}
 	for it := 0; it < n; it++ {
 		h := w.pickSeg("dict.seg")
 		field := w.pickField(h, "dict.field")
@@ -429,6 +445,15 @@ func postingsProtocol(r *RunCtx) {
 	w := newWorld(r, false, false)
 	defer w.CloseAll()
 	w.populate(1)
+	// cold twin instances, as in the dictionary protocol
+	for _, h := range w.Segs {
+		if h.Seg == nil {
+			continue
+		}
+		cold := w.twinOf(h)
+		h.Seg.Close()
+		h.Seg = cold
+	}
 	var pool plPool
 	n := 6 + c.Choose(20, "post.nseq")
 	advances, reuses := 0, 0
@@ -718,6 +743,23 @@ func docValuesProtocol(r *RunCtx) {
 			for _, t := range h.Canon.Terms[f] {
 				for _, hit := range t.Hits {
 					exp[hit.Doc] = append(exp[hit.Doc], t.Term)
+				}
+			}
+			// a geo-shape field adds its encoded shape to the document's doc values
+			if h.Spec != nil {
+				for d := range h.Spec.Docs {
+					// one encoded shape per (document, field): with several values of
+					// the field in one document, the last one is kept
+					shape := ""
+					for j := range h.Spec.Docs[d].Fields {
+						fs := &h.Spec.Docs[d].Fields[j]
+						if fs.Kind == 'g' && fs.Name == f {
+							shape = string(fs.Shape)
+						}
+					}
+					if shape != "" && d < len(exp) {
+						exp[d] = append(exp[d], shape)
+					}
 				}
 			}
 			for d := range exp {
